@@ -59,6 +59,15 @@ def crash_signature(how, report):
                 break
         else:
             kind = "ubsan:other"
+    vg = re.search(r"(Conditional jump or move depends on uninitialised value|Use of uninitialised value|Syscall param \S+ (?:points to|contains) uninitialised|Invalid (?:read|write) of size)", text)
+    if kind is None and vg:
+        kind = "valgrind:uninit" if "ninitialised" in vg.group(1) else "valgrind:invalid-access"
+        func = "?"
+        for fm in re.finditer(r"(?:at|by) 0x[0-9A-Fa-f]+: (\S+) \(([A-Za-z0-9_]+\.c):\d+\)", text):
+            if os.path.exists(os.path.join("/repo/lib/src", fm.group(2))) or os.path.exists(os.path.join("/repo/src", fm.group(2))):
+                func = fm.group(1)
+                break
+        return "%s@%s" % (kind, func)
     if kind is None and "LeakSanitizer" in text:
         kind = "leak"
     if kind is None and "ThreadSanitizer" in text:
@@ -118,7 +127,7 @@ def parse_protocol(text, res):
         i += 1
 
 
-def run_shards(exe, args, nshards=NCPU, timeout=None, extra_env=None, pin=False):
+def run_shards(exe, args, nshards=NCPU, timeout=None, extra_env=None, pin=False, wrapper=None):
     """Runs exe --shard i --nshards n for every shard in parallel; returns a Result."""
     res = Result()
     e = env()
@@ -126,7 +135,7 @@ def run_shards(exe, args, nshards=NCPU, timeout=None, extra_env=None, pin=False)
         e.update(extra_env)
 
     def one(i):
-        cmd = [exe] + args + ["--shard", str(i), "--nshards", str(nshards)]
+        cmd = (wrapper or []) + [exe] + args + ["--shard", str(i), "--nshards", str(nshards)]
         if pin:
             cmd = ["taskset", "-c", str(i % NCPU)] + cmd
         try:
@@ -140,12 +149,22 @@ def run_shards(exe, args, nshards=NCPU, timeout=None, extra_env=None, pin=False)
             parse_protocol(out, res)
             if rc != 0:
                 res.errors.append("shard %d of %s exited %s: %s" % (i, os.path.basename(exe), rc, err[-400:]))
+    cleanup_scratch()
     return res
 
 
-def run_single(exe, args, case_id, timeout=120):
+def cleanup_scratch():
+    """removes scratch directories of harness processes that no longer exist (killed on timeout)"""
+    import glob, shutil
+    for d in glob.glob("/dev/shm/vh-*") + glob.glob("/var/tmp/vh-*"):
+        m = re.search(r"-(\d+)$", d)
+        if m and not os.path.exists("/proc/" + m.group(1)):
+            shutil.rmtree(d, ignore_errors=True)
+
+
+def run_single(exe, args, case_id, timeout=300, wrapper=None):
     res = Result()
-    r = subprocess.run([exe] + args + ["--case", str(case_id)], stdout=subprocess.PIPE, stderr=subprocess.PIPE,
+    r = subprocess.run((wrapper or []) + [exe] + args + ["--case", str(case_id)], stdout=subprocess.PIPE, stderr=subprocess.PIPE,
                        env=env(), timeout=timeout)
     parse_protocol(r.stdout.decode("latin-1"), res)
     return res
